@@ -74,6 +74,7 @@ type scriptClient struct {
 	putDone    chan string
 	active     int // feeding goroutines alive
 	extraCalls int
+	noRecorder bool
 	upTo       uint64
 	foreign    string
 	// called when a SyncChain call arrives after the last scripted attempt was used up
@@ -218,6 +219,10 @@ func (c *scriptClient) feed(ctx context.Context, ch chan *drand.BeaconPacket, st
 				// stored => its Put is reported by the recorder
 				want := putKey(stream[i-1].b)
 				deadline := time.After(hangTimeout)
+				if c.noRecorder {
+					// no view on the store (StartFollowChain builds its own): give the packet time
+					deadline = time.After(150 * time.Millisecond)
+				}
 			wait:
 				for {
 					select {
